@@ -23,6 +23,7 @@ func init() {
 			{ID: "R01.5", Title: "frame-layout algebra: Get/Push/CreateFrame/Init and the storage address exactly offs+n / offs+size / {offs+size-n, n}", Floor: 8, Run: ruleR015},
 			{ID: "R01.6", Title: "evaluation order: sub expressions are evaluated in reference order (A before B, value before inner, try before catch, callee/receiver before arguments)", Floor: 15, Run: ruleR016},
 			{ID: "R01.7", Title: "lazily compiled boolean operators yield a Bool or an error, like their eager implementations", Floor: 2, Run: ruleR017},
+			{ID: "R16.5", Title: "scope links ask their parent for the looked up name itself (see C16)", Floor: 5, Run: ruleR165},
 			{ID: "R01.4", Title: "captured-name agreement between parseLiteral (emitted identifier names) and AddArgs (recorded outer names)", Floor: 1, Run: ruleR014},
 		},
 	})
@@ -62,6 +63,7 @@ func init() {
 			{ID: "R03.5", Title: "token consumption discipline: every Next() is justified by a Peek test or its token is checked before success", Floor: 35, Run: ruleR035},
 			{ID: "R03.6", Title: "implicit multiplication bookkeeping only in comfort mode", Floor: 3, Run: ruleR036},
 			{ID: "R03.7", Title: "the parser is purely constructive: grouping never depends on the node kind of an already parsed operand (parentheses are honoured)", Floor: 1, Run: ruleR037},
+			{ID: "R03.9", Title: "a consumed postfix opener always builds its node: no path accepts the brackets without a node", Floor: 3, Run: ruleR039},
 			{ID: "R04.8", Title: "input is never silently truncated: the end-of-input mark cannot be forged by a character of the input (see C04)", Floor: 1, Run: ruleR048},
 		},
 	})
@@ -131,6 +133,7 @@ func init() {
 			{ID: "R07.3", Title: "declared arity covers every stack slot the implementation reads", Floor: 121, Run: ruleR073},
 			{ID: "R07.4", Title: "string positions: a rune count is never equated with, added to or subtracted from a byte count", Floor: 4, Run: ruleR074},
 			{ID: "R07.5", Title: "a rune that is written into a result is decoded from a string known to be non empty (must-analysis on the CFG)", Floor: 1, Run: ruleR075},
+			{ID: "R07.6", Title: "no address of an element of a slice is kept while the same function appends to that slice", Floor: 0, Run: ruleR076},
 			{ID: "R13.1", Title: "key-domain agreement of the map storages (see C13)", Floor: 9, Run: ruleR131},
 			{ID: "R09.1", Title: "list backing slices are never written in place (see C09)", Floor: 36, Run: ruleR091},
 		},
@@ -144,6 +147,7 @@ func init() {
 			{ID: "R08.1", Title: "stage constructors do not consume: no list iteration and no closure call outside the returned producer", Floor: 21, Run: ruleR081},
 			{ID: "R08.2", Title: "short circuit consumers return inside the loop over the producer", Floor: 5, Run: ruleR082},
 			{ID: "R08.3", Title: "stop is propagated: no producer calls the consumer again after it answered false", Floor: 47, Run: ruleR083},
+			{ID: "R08.4", Title: "no list is rendered into a message (List.String iterates the list a second time)", Floor: 1, Run: ruleR084},
 			{ID: "R10.1b", Title: "stage producers modify only state created inside the producer (per iteration)", Floor: 23, Run: ruleR101stages},
 		},
 	})
@@ -252,6 +256,7 @@ func init() {
 			{ID: "R16.2", Title: "GenerateWithMap: one name for stack argument and attribute owner; AddMap wraps the generator scope, arguments on top", Floor: 1, Run: ruleR162},
 			{ID: "R16.3", Title: "closure scopes are used for the closure body only; outer names are deduplicated by the appended value", Floor: 4, Run: ruleR163},
 			{ID: "R16.4", Title: "every identifier resolved to an attribute is rewritten to a map access, whatever follows it", Floor: 2, Run: ruleR164},
+			{ID: "R16.5", Title: "scope links ask their parent for the looked up name itself (no renaming links: lexical scoping)", Floor: 5, Run: ruleR165},
 			{ID: "R01.3", Title: "scope recording of closure literals (see C01)", Floor: 3, Run: ruleR013},
 		},
 	})
